@@ -193,7 +193,7 @@ def search(ctx):
             back = ifft(fft(im))
             err = _rel(back.values, im.values)
             par = ("odd" if (nx % 2 or ny % 2) else "even")
-            if err > 1e-11:
+            if not (err <= 1e-11):
                 ctx.violation("C17:ifft-fft:%s" % par, "ifft(fft(x)) != x for shape %dx%d (rel err %.3g)" % (nx, ny, err),
                               dict(kind="ifft-fft", shape=[nx, ny], seed=ctx.seed, err=err))
             elif back.dims != im.dims or not (np.allclose(back.x, im.x, rtol=1e-9, atol=1e-12) and np.allclose(back.y, im.y, rtol=1e-9, atol=1e-12)):
@@ -207,7 +207,7 @@ def search(ctx):
         a = rng.normal(size=m) + 1j * rng.normal(size=m)
         ctx.tried("ifft-fft-1d", (m,))
         back = ifft(fft(a))
-        if _rel(back, a) > 1e-11:
+        if not (_rel(back, a) <= 1e-11):
             ctx.violation("C17:ifft-fft-1d:%s" % ("odd" if m % 2 else "even"), "1-d ifft(fft(x)) != x for length %d" % m,
                           dict(kind="ifft-fft-1d", n=m, seed=ctx.seed))
     # ---- propagation laws
@@ -250,21 +250,21 @@ def search(ctx):
             p12 = propagate(im1, d2, cfsp=cfsp)
             psum = propagate(im, d1 + d2, cfsp=cfsp) if d1 + d2 != 0 else im
             err = _rel(p12.values.squeeze(), psum.values.squeeze())
-            if err > 1e-8:
+            if not (err <= 1e-8):
                 ctx.violation("C17:compose:%s" % par, "propagate(propagate(x,d1),d2) != propagate(x,d1+d2) (rel %.3g, %dx%d)" % (err, nx, ny),
                               dict(kind="compose", **info))
             # inverse when no frequency is evanescent
             if coarse:
                 pb = propagate(im1, -d1, cfsp=cfsp)
                 err = _rel(pb.values.squeeze(), im.values.squeeze())
-                if err > 1e-8:
+                if not (err <= 1e-8):
                     ctx.violation("C17:inverse:%s" % par, "propagate by d then -d != input (rel %.3g)" % err, dict(kind="inverse", **info))
             # linearity
             im2 = rand_image(rng, nx, ny, cplx, spacing=sp)
             c = complex(rng.normal(), rng.normal()) if cplx else float(rng.normal())
             lhs = propagate(im + c * im2, d1, cfsp=cfsp)
             rhs = p1.values + c * propagate(im2, d1, cfsp=cfsp).values
-            if _rel(lhs.values, rhs) > 1e-9:
+            if not (_rel(lhs.values, rhs) <= 1e-9):
                 ctx.violation("C17:linear", "propagate is not linear", dict(kind="linear", **info))
             # list of distances == stack of single results (by z label)
             ds = [d1, d2] + ([0.0] if i % 3 == 0 else [])
@@ -274,7 +274,7 @@ def search(ctx):
             for dd in dl:
                 single = im if dd == 0 else propagate(im, dd, cfsp=cfsp)
                 got = pl.sel(z=dd) if dd != 0 else pl.sel(z=float(im.z[0]))
-                if _rel(np.asarray(got.values).squeeze(), np.asarray(single.values).squeeze()) > 1e-10:
+                if not (_rel(np.asarray(got.values).squeeze(), np.asarray(single.values).squeeze()) <= 1e-10):
                     ctx.violation("C17:list-stack", "propagate(x, list) slice at d=%r != propagate(x, d)" % dd,
                                   dict(kind="list", ds=dl, **info))
                     break
